@@ -29,6 +29,10 @@ class Event:
             if g[0] in ("loop", "while", "except", "try"):
                 continue
             out.extend(T.conjuncts(g))
+        # "the sequence is not empty" says nothing inside a loop over that sequence (`if xs: for x in xs: ...`)
+        nonempty = {T.ige(T.call("len", (g[2],)), 1) for g in self.guard if g[0] == "loop"}
+        if nonempty:
+            out = [c for c in out if c not in nonempty]
         return out
 
     def loops(self):
@@ -42,6 +46,13 @@ class Event:
 
 
 class Summary:
+    def pos(self, e):
+        """position of an event in program (evaluation) order; line numbers cannot be compared once a helper has been inlined"""
+        idx = self.__dict__.get("_pos")
+        if idx is None or len(idx) != len(self.events):
+            idx = self.__dict__["_pos"] = {id(x): i for i, x in enumerate(self.events)}
+        return idx.get(id(e), 10 ** 9)
+
     def __init__(self, func):
         self.func = func
         self.returns = []      # (guard tuple, term, node)
@@ -431,7 +442,8 @@ class Eval:
                 if isinstance(n, ast.Name) and isinstance(n.ctx, (ast.Store, ast.Del)):
                     out.add(n.id)
                 elif isinstance(n, ast.Call) and isinstance(n.func, ast.Attribute) and isinstance(n.func.value, ast.Name) \
-                        and n.func.attr in ("append", "add", "update", "remove", "insert", "extend", "clear", "pop"):
+                        and n.func.attr in ("append", "add", "update", "remove", "insert", "extend", "clear", "pop", "setdefault", "popitem",
+                                            "sort", "reverse", "discard"):
                     out.add(n.func.value.id)
                 elif isinstance(n, (ast.Subscript,)) and isinstance(n.ctx, ast.Store) and isinstance(n.value, ast.Name):
                     out.add(n.value.id)
@@ -1175,6 +1187,16 @@ class Eval:
                 fname = ("m", f.attr)
                 ts = self.repo.resolve_call(n, self.func)
                 ts = [t for t in ts if isinstance(t, Func)]
+                if len(ts) > 1 and recv[0] == "idx":
+                    # the receiver is an element of one of the repo's containers by *value* (a helper that is handed `cells` as a
+                    # parameter): the container convention applies to the term the parameter is bound to
+                    b = recv[1]
+                    nm = b[2] if b[0] == "attr" else b[1] if b[0] == "sym" else None
+                    hint = self.repo.CONTAINER_CLASS.get(nm)
+                    hc = self.repo.classes.get(hint) if hint else None
+                    t = self.repo.method(hc, f.attr) if hc is not None else None
+                    if t is not None:
+                        ts = [t]
                 if len(ts) == 1:
                     target = ts[0]
         else:
@@ -1224,6 +1246,9 @@ class Eval:
                 # s.update(xs) / l.extend(xs): same normal form as the union / concatenation they compute
                 self.set_place(holder, ("union" if meth == "update" else "concat", recv, args[0]))
                 return T.NONE
+            if meth in ("setdefault", "popitem"):
+                # the receiver is no longer what it was (its value is not summarised); the call's own value is left to the generic path
+                self.set_place(holder, ("mut", meth, recv, tuple(args)))
             if meth in ("update", "extend", "remove", "insert", "clear", "pop", "sort", "reverse", "discard"):
                 self.set_place(holder, ("mut", meth, recv, tuple(args)))
                 if meth == "pop":
@@ -1742,7 +1767,54 @@ def simplify_call(fname, recv, args, kw):
 _cache = {}
 
 
+def new_param_bindings(repo, f):
+    """An optional parameter that the function did not have when the obligations were bound, whose default is a constant and that no
+    call site of the package passes (by position, by keyword or through **), is evaluated at its default: that is what every user of
+    the unchanged API gets.  -> {name: term}"""
+    memo = repo.__dict__.setdefault("_new_param_bindings", {})
+    if f.qualname in memo:
+        return memo[f.qualname]
+    out = {}
+    base = known_params().get(f.qualname)
+    if base is not None:
+        a = f.node.args
+        pos = [x.arg for x in a.posonlyargs + a.args]
+        offset = 1 if (f.cls is not None and not f.is_static and pos and pos[0] in ("self", "cls")) else 0
+        for name, d in f.defaults().items():
+            if name in base:
+                continue
+            v = d.operand if isinstance(d, ast.UnaryOp) and isinstance(d.op, ast.USub) else d
+            if not (isinstance(v, ast.Constant) and (v.value is None or isinstance(v.value, (int, float, str, bool)))):
+                continue
+            passed = False
+            for caller, c in repo.call_sites(f.qualname):
+                if any(k.arg == name or k.arg is None for k in c.keywords) or any(isinstance(x, ast.Starred) for x in c.args):
+                    passed = True
+                if name in pos and len(c.args) > pos.index(name) - (offset if isinstance(c.func, ast.Attribute) else 0):
+                    passed = True
+            if not passed:
+                out[name] = Eval(repo, f).ev(d)
+    memo[f.qualname] = out
+    return out
+
+
+_KP = None
+
+
+def known_params():
+    global _KP
+    if _KP is None:
+        import json
+        import os
+        p = os.path.join(os.path.dirname(os.path.abspath(__file__)), "known_functions.json")
+        _KP = json.load(open(p)).get("params", {}) if os.path.exists(p) else {}
+    return _KP
+
+
 def summarize(repo, qualname, config=None, inline=(), bindings=None, heap=None, abstract=()):
+    auto = new_param_bindings(repo, repo.func(qualname))
+    if auto:
+        bindings = {**auto, **(bindings or {})}
     key = (id(repo), qualname, tuple(sorted((config or {}).items())), tuple(sorted(inline)),
            tuple(sorted((bindings or {}).items())), tuple(sorted((heap or {}).items(), key=repr)), tuple(sorted(abstract)))
     if key not in _cache:
